@@ -43,6 +43,15 @@ Theorem C11_ctx_error : forall tcl ccl wl rl c c' e,
   exists err, res c' = RetErr err /\ chain_contains unwraps_fixed (ctx_sentinel (cx c)) err = true.
 Proof. exact ctx_arm_reports_ctx_error. Qed.
 
+(* "returns promptly once its context is cancelled" does not depend on the reader goroutine: a call parked in a
+   select whose context has ended can leave through ctx.Done() in ANY state of the rest of the system — e.g. while
+   the reader is inside a message handler and takes no step (the model has no lock shared between the handler
+   call and the requests: serve.go releases c.mu before calling the handler) *)
+Theorem C11_ctx_wakes_while_reader_is_busy : forall s i c kc kx rs,
+  nth_error (calls s) i = Some c -> active c = true -> rest c = ISelect kc kx :: rs -> cx c <> CtxLive ->
+  step (LCall i ACtx) s <> None.
+Proof. exact parked_ctx_enabled. Qed.
+
 (* retry handles (ErrorWithRetry.Retry(ctx2, cli2)): every wait of the handle selects on the context passed to
    Retry — the state of the context of the first, interrupted attempt (field [ocx]) never influences whether a
    step is possible nor what it returns; with C11_ctx_error: the error is ctx2's, never the old context's *)
@@ -172,6 +181,7 @@ Print Assumptions C11_matrix_is_all.
 Print Assumptions C11_returns_all_schedules.
 Print Assumptions C11_bounded.
 Print Assumptions C11_ctx_error.
+Print Assumptions C11_ctx_wakes_while_reader_is_busy.
 Print Assumptions C11_retry_ignores_original_context.
 Print Assumptions C11_ctx_error_through_wrappers.
 Print Assumptions C11_all_wake.
